@@ -236,7 +236,7 @@ Fixpoint slot_values (pat : list bool) (i : Z) : list value :=
 Definition fname : list Z := [70].
 Definition call_toks (sep : token) (pat : list bool) : list token :=
   Tok T_FUNCTION fname :: Tok T_LPAREN [40] :: slot_tokens sep pat 1 ++ [Tok T_RPAREN [41]].
-Definition rec_host : host := {| h_vars := []; h_funs := [(fname, BRecord)]; h_cells := []; h_ranges := []; h_registry := []; h_varset := []; h_funset := [] |}.
+Definition rec_host : host := {| h_vars := []; h_funs := [(fname, BRecord)]; h_cells := []; h_ranges := []; h_registry := []; h_varset := []; h_funset := []; h_oracle := fun _ _ => None |}.
 Definition run_call (sep : token) (pat : list bool) : res value * list event :=
   lr_run rec_host 400 [] (call_toks sep pat) false [].
 Definition res_eqb (a b : res value * list event) : bool :=
